@@ -39,6 +39,9 @@ type rtHist struct {
 	// SlowInitMs: every runtime takes this long before its first next (the first invocation, and the one
 	// after a crash, wait for the initialisation): the deadline must still count from the ARRIVAL
 	SlowInitMs int `json:"slow_init_ms,omitempty"`
+	// DirectProbe: before the history a direct-invoke request with this MaxPayloadSize header is parsed in the same
+	// process (the standalone front end has both routes): the buffered path's limit must not depend on it
+	DirectProbe string `json:"direct_probe_max_payload,omitempty"`
 }
 
 func init() {
@@ -288,6 +291,16 @@ func genC14(tier string, seed int64) []Case {
 		{Mode: "response", EvSize: 2 * L, EvKind: "random", RespSize: 2 * L, RespKind: "random"},
 		{Mode: "response", EvSize: 3, EvKind: "json", RespSize: 9, RespKind: "json"},
 	}, Timeout: 60000, Salt: "double"})
+	// a direct-invoke request with its own payload limit was parsed earlier in the same process: the limit of the
+	// buffered path stays what it is (smaller and larger direct limits)
+	for _, probe := range []string{"1048576", "8388608", "-1"} {
+		add(rtHist{Steps: []rtStep{
+			{Mode: "response", EvSize: 5, EvKind: "json", RespSize: 2 << 20, RespKind: "random"},
+			{Mode: "response", EvSize: 6, EvKind: "json", RespSize: L, RespKind: "allbytes"},
+			{Mode: "response", EvSize: 7, EvKind: "json", RespSize: L + 1, RespKind: "random"},
+			{Mode: "response", EvSize: 8, EvKind: "json", RespSize: 9, RespKind: "json"},
+		}, Timeout: 60000, Salt: "after-direct/" + probe, DirectProbe: probe})
+	}
 	if tier == "thorough" {
 		r := rng(seed, "C14")
 		for i := 0; i < 150; i++ {
@@ -343,6 +356,11 @@ type seen struct {
 	PostEt   string
 	Posted   []byte
 	Proc     string
+	Again    bool   // the runtime asked for the event a second time before answering
+	AgainSt  int    // status of that repeated next
+	AgainID  string // request id it carried
+	AgainEq  bool   // body identical to the first delivery
+	AgainLen int
 }
 
 type funcErr struct {
@@ -392,6 +410,13 @@ func runRoundTrip(c *Ctx, h rtHist) {
 			return nil
 		}
 		st := h.Steps[i]
+		if (i%3 == 1 || len(events[i]) > maxPayload) && st.Mode != "initerror" {
+			// a repeated next before answering returns the same invocation: same id, same (cut) bytes
+			r2 := pt.Next()
+			mu.Lock()
+			s.Again, s.AgainSt, s.AgainID, s.AgainEq, s.AgainLen = true, r2.Status, r2.ReqID(), bytes.Equal(r2.Body, ev.Body), len(r2.Body)
+			mu.Unlock()
+		}
 		switch st.Mode {
 		case "response", "initerror":
 			rr := pt.Respond(ev.ReqID(), bodies[i], map[string]string{"Content-Type": "application/octet-stream"})
@@ -426,6 +451,9 @@ func runRoundTrip(c *Ctx, h rtHist) {
 			},
 			Handle: handle,
 		})}
+	}
+	if h.DirectProbe != "" {
+		doReceive(diReq{MaxPayload: h.DirectProbe})
 	}
 	w.E.Init()
 
@@ -480,6 +508,9 @@ func runRoundTrip(c *Ctx, h rtHist) {
 			c.Check(bytes.Equal(s.Body, wantEv), "event_cut_at_limit", fmt.Sprintf("C14/event-cut/%d", len(s.Body)-maxPayload), fmt.Sprintf("event of %d bytes reached the runtime as %d bytes (limit %d)", len(events[i]), len(s.Body), maxPayload), nil)
 		} else {
 			c.Check(bytes.Equal(s.Body, wantEv), "event_exact", P+"/event-bytes/"+diffSig(s.Body, wantEv), fmt.Sprintf("runtime received %d bytes, posted %d; first difference at %d", len(s.Body), len(wantEv), firstDiff(s.Body, wantEv)), nil)
+		}
+		if s.Again {
+			c.Check(s.AgainSt == 200 && s.AgainID == s.ID && s.AgainEq, "repeated_next_same_event", fmt.Sprintf("%s/repeated-next/%d-%v-%d", P, s.AgainSt, s.AgainID == s.ID, s.AgainLen-len(s.Body)), fmt.Sprintf("a second next before answering returned status %d, same id %v, %d bytes (first delivery %d bytes, event posted %d bytes)", s.AgainSt, s.AgainID == s.ID, s.AgainLen, len(s.Body), len(events[i])), nil)
 		}
 		// (2) fresh id, ARN, client context, deadline
 		_, dup := ids[s.ID]
